@@ -119,6 +119,8 @@ type modelCtx struct {
 	retrySt  map[int]*retryState // by stack position
 	hedgeAbove map[int]bool
 	strictFlags bool
+	rootFallbackApplied bool
+	allow []string // oracle-id prefixes this property reports (nil = all)
 }
 
 type retryState struct {
@@ -128,6 +130,18 @@ type retryState struct {
 }
 
 func (m *modelCtx) fail(oracle, sig, msg string) {
+	if m.allow != nil {
+		ok := false
+		for _, a := range m.allow {
+			if len(oracle) >= len(a) && oracle[:len(a)] == a {
+				ok = true
+			}
+		}
+		if !ok {
+			m.c.cov("model.other_property_failure." + oracle)
+			return
+		}
+	}
 	m.c.fail(m.prefix+oracle, sig, fmt.Sprintf("exec %d: %s", m.v.ID, msg))
 }
 
@@ -386,6 +400,9 @@ func (m *modelCtx) evalFallback(n *Node, p *PolicySpec) mres {
 		return mres{}
 	}
 	m.c.cov("model.fallback.applied")
+	if n.Pos == 0 {
+		m.rootFallbackApplied = true
+	}
 	outVal, outErr := fbValue(p), errTable[p.FbErr]
 	if p.FbKind == 0 {
 		outErr = nil
@@ -620,13 +637,13 @@ func (m *modelCtx) evalHedge(n *Node, p *PolicySpec) mres {
 // checkModels evaluates the local models over every execution of the run.
 // kinds restricts the failures that are reported to the given oracle-id
 // prefixes (nil = all).
-func checkModels(c *checkCtx, prefix string) {
+func checkModels(c *checkCtx, prefix string, allow ...string) {
 	sc := c.Res.Sc
 	for _, v := range c.Views {
 		if v.Root == nil || v.OpEnd == nil || sc.NoProbes {
 			continue
 		}
-		m := &modelCtx{c: c, v: v, sc: sc, prefix: prefix, retrySt: map[int]*retryState{}, hedgeAbove: map[int]bool{}}
+		m := &modelCtx{c: c, v: v, sc: sc, prefix: prefix, allow: allow, retrySt: map[int]*retryState{}, hedgeAbove: map[int]bool{}}
 		seenHedge := false
 		for pos := range v.Stack {
 			m.hedgeAbove[pos] = seenHedge
@@ -652,7 +669,11 @@ func checkModels(c *checkCtx, prefix string) {
 		} else if r.ok {
 			c.cov("model.verdict_checked")
 			if r.verdict != (succ == 1) {
-				m.fail("verdict.value", "value", fmt.Sprintf("nesting of the policies' classifications gives verdict success=%v for result %s, but the executor reported success=%v", r.verdict, outcomeStr(v.Root.Exit), succ == 1))
+				id := "verdict.value"
+				if m.rootFallbackApplied {
+					id = "verdict.fallback-output"
+				}
+				m.fail(id, "value", fmt.Sprintf("nesting of the policies' classifications gives verdict success=%v for result %s, but the executor reported success=%v", r.verdict, outcomeStr(v.Root.Exit), succ == 1))
 			}
 		}
 	}
